@@ -234,7 +234,7 @@ def items(tier):
     # programs whose full choice tree exceeds 5000 leaves are explored by C01/C08 only (every subset /
     # selection multiplies the tree)
     for pname in programs(tier, max_tree=5000):
-        if "[" in pname and pname not in QUICK_GENERATED and (pname.count("[") > 1 or tree_size(pname) > 40):
+        if "[" in pname and pname not in QUICK_GENERATED and (pname.count("[") > 1 or True):  # thorough C04 keeps to the hand-written family + the quick generated programs (hours otherwise)
             continue  # generated compositions: depth 1 with small trees here; all of them in C01 / C03
         prog, argsl, _t = FAMILY[pname]
         k = len(R.leaf_paths(prog))
